@@ -7,8 +7,8 @@ ENCS = ["ttlv", "xml", "json"]
 MODEL_CALLS = [[("ReqGet", 0, False), ("RespGet", 4, True)], [("ReqLocate", 4, False), ("ReqLocate", 0, True)], [("RespGet", 3, False), ("ReqGet", 1, True)]]
 
 
-def call(msg, ver, op="enc", enc="ttlv", reuse=False):
-    return {"msg": msg, "ver": ver, "op": op, "enc": enc, "reuse": reuse}
+def call(msg, ver, op="enc", enc="ttlv", reuse=False, noclear=False):
+    return {"msg": msg, "ver": ver, "op": op, "enc": enc, "reuse": reuse, "noclear": noclear}
 
 
 def tlc_orders(ctx, seeds):
@@ -67,6 +67,10 @@ def run(ctx):
         for enc in ENCS:
             jobs.append({"id": "hist-ver-%s-%s" % ("".join(map(str, vs)), enc),
                          "job": {"mode": "seq", "procs": [[call(KINDS[(n + i) % 6], v, "enc", enc, reuse=True) for i, v in enumerate(vs)]]}})
+    # the same on an encoder that is NOT cleared between messages (binary): each message's header sets the register anew
+    for n, vs in enumerate(seqs):
+        jobs.append({"id": "hist-ver-noclear-%s" % "".join(map(str, vs)),
+                     "job": {"mode": "seq", "procs": [[call(KINDS[(n + i) % 6], v, "enc", "ttlv", reuse=True, noclear=True) for i, v in enumerate(vs)]]}})
     # (b) gated: goroutines building plans under contention in an order taken from a TLC behaviour of CodecCache.tla
     orders = tlc_orders(ctx, [ctx.seed * 100 + i for i in range(8 if ctx.quick else 60)])
     if len(orders) < 4:
